@@ -9,7 +9,7 @@ def repo_commits(prefix):
 CHECKS = {
  'C01': dict(
    technique='stateless exhaustive enumeration of all control-flow programs up to a node bound, each executed on the real interpreter and compared with an independent structural evaluator (reference model)',
-   text='Every AST of five sub-grammars of the control-flow language (full grammar, definition bodies, construct skeletons, counted loops, definitions) up to 4-6 nodes (quick) / 5-7 nodes (thorough) is compiled and run by the real interpreter and by a big-step evaluator that never sees bytecode; result class, stack, global cells and output must agree, non-terminating programs must hit the instruction limit, after-loop index probes must fail. Complete below the bound, nothing sampled.',
+   text='Every AST of six sub-grammars of the control-flow language (full grammar, definition bodies, construct skeletons, counted loops, definitions, names in nested definitions) up to 4-5 nodes (quick) / 5-7 nodes (thorough) is compiled and run by the real interpreter and by a big-step evaluator that never sees bytecode; result class, stack, global cells and output must agree, non-terminating programs must hit the instruction limit, after-loop index probes must fail; after every counted-loop program the next source probes I/J/K and must get the loop underflow. Complete below the bound, nothing sampled.',
    note='Trusts the structural evaluator in mc/src/cf.rs as the meaning of the source; programs above the node bound and values outside {0,1,2,3,true,false,nil} are not covered.',
    ref='DESIGN.md §4 C01'),
 }
@@ -61,7 +61,7 @@ CHECKS['C12'] = dict(
    ref='DESIGN.md §4 C12')
 CHECKS['C13'] = dict(
    technique='exhaustive differential sweep: every dictionary word x argument tuples x tagging patterns, tagged run vs untagged run on the real interpreter; tag words against a map-attached-to-value model',
-   text='179 run-time words + 10 templates x all tuples of arity 0..3 over an 11 (quick) / 15 (thorough) value alphabet x every non-empty subset of tagged positions x 4 tag maps (empty, {k:v}, tags-on-tags, #fmt) x nested-tag variants: same result class, equal results, same output, provenance rule for tags in results; tag words checked by sequences of <= 2/3 operations against a model.',
+   text='179 run-time words + 10 templates x all tuples of arity 0..3 over an 11 (quick) / 15 (thorough) value alphabet x every non-empty subset of tagged positions x 4 tag maps (empty, {k:v}, tags-on-tags, #fmt) x nested-tag variants: same result class, equal results, same output, provenance rule for tags in results; top-level results of words other than the stack movers must be bare; tag words checked by sequences of <= 2/3 operations against a model.',
    note='Stack residue after a failing word is not compared; #fmt is withheld from the words that honour it by design; values outside the alphabet and arity > 3 not covered.',
    ref='DESIGN.md §4 C13')
 CHECKS['C10'] = dict(
@@ -81,7 +81,7 @@ CHECKS['C08'] = dict(
    ref='DESIGN.md §4 C08')
 CHECKS['C14'] = dict(
    technique='exhaustive enumeration of every limit value against the recorded unconstrained trace of each program, stepped on the real interpreter with a per-step invariant monitor (explicit per-step invariant checking)',
-   text='47 growth-path programs (pushes, unbox, collect, loops, recursion, meta blocks, var/let chains, foreach, late binding) and every program of the control-flow and repertoire grammars up to 3 (quick) / 4 (thorough) nodes: for EVERY instruction limit 0..=needed+1, EVERY stack limit 0..=deepest+2 and EVERY heap limit h0..=largest+1 the program is compiled and stepped; after every step meter <= N, stack <= S, heap <= H; insufficient limits must fail with the limit error no later than the first exceeding step, sufficient ones must not change the outcome; after lifting the limit run() resumes to the unconstrained result (N) / probes evaluate normally (S, H); same limits under a single eval.',
+   text='47 growth-path programs (pushes, unbox, collect, loops, recursion, meta blocks, var/let chains, foreach, late binding) and every program of the control-flow and repertoire grammars up to 3 (quick) / 4 (thorough) nodes: for EVERY instruction limit 0..=needed+1, EVERY stack limit 0..=deepest+2 and EVERY heap limit h0..=largest+1 the program is compiled and stepped; after every step meter <= N, stack <= S, heap <= H; insufficient limits must fail with the limit error no later than the first exceeding step, sufficient ones must not change the outcome; after lifting the limit run() resumes to the unconstrained result (N) / probes evaluate normally (S, H); same limits under a single eval. Also all sequences of 3 evaluations with limits changed in between, limits set below current usage, meta blocks on a non-empty stack (measured peaks), and the instruction budget over all sequences of 4 sources counted by printed markers.',
    note='Needed instruction count is measured, not assumed. Stack limits within 1 of the deepest observed depth may go either way (intra-instruction peaks).',
    ref='DESIGN.md §4 C14')
 CHECKS['C15'] = dict(
